@@ -41,9 +41,11 @@ def SameButFn (env env' : Env) : Prop :=
 
 theorem verifyPayable_congr (env : Env) (g : GasCost) (a : Bytes) :
     verifyPayable { env with gas := g } a = verifyPayable env a := by unfold verifyPayable; rfl
+theorem verifyPayableIf_congr (env : Env) (g : GasCost) (b : Bool) (a : Bytes) :
+    verifyPayableIf { env with gas := g } b a = verifyPayableIf env b a := by unfold verifyPayableIf; rw [verifyPayable_congr]
 theorem addNFTToDestination_congr (env : Env) (g : GasCost) (d : Bytes) (t : Token) (k : Bytes) (v r : Bool) :
     addNFTToDestination { env with gas := g } d t k v r = addNFTToDestination env d t k v r := by
-  unfold addNFTToDestination; rw [verifyPayable_congr]
+  unfold addNFTToDestination; rw [verifyPayableIf_congr]
 theorem transferOne_congr (env : Env) (g : GasCost) (c : Call) (l : Bool) (d t : Bytes) (n q : Nat) (v : Bool) :
     transferOne { env with gas := g } c l d t n q v = transferOne env c l d t n q v := by
   unfold transferOne; simp only [addNFTToDestination_congr]
